@@ -181,12 +181,13 @@ def main(run: Run):
     # ---- end to end: real BgpServer + RTR client against loopback caches ----
     e2e = []
     if run.replay:
-        for g in ("e2e-twin", "e2e-clean", "e2e-free"):
+        for g in ("e2e-creset", "e2e-twin", "e2e-clean", "e2e-free"):
             e2e.append((g, run.replay_behaviours(g)))
     else:
+        e2e.append(("e2e-creset", gen_e2e(run, False, 500 if thorough else 120, 36, run.seed * 10 + 4, focus="creset")))
         e2e.append(("e2e-twin", gen_e2e(run, False, 600 if thorough else 150, 36, run.seed * 10 + 3, focus="twin")))
-        e2e.append(("e2e-clean", gen_e2e(run, True, 800 if thorough else 180, 30, run.seed * 10 + 1)))
-        e2e.append(("e2e-free", gen_e2e(run, False, 200 if thorough else 40, 30, run.seed * 10 + 2)))
+        e2e.append(("e2e-clean", gen_e2e(run, True, 600 if thorough else 120, 30, run.seed * 10 + 1)))
+        e2e.append(("e2e-free", gen_e2e(run, False, 400 if thorough else 100, 30, run.seed * 10 + 2)))
     left = 0
     for g, behs in e2e:
         if not behs:
@@ -213,8 +214,10 @@ RULE = ("(1) white box: every ROA set of <=2 (quick) / <=3 (thorough) records pe
         "EnableRpki/DisableRpki/ResetRpki(soft), RTR PDUs of two protocol-abiding loopback caches (cache "
         "response, v4/v6 announce/withdraw incl. duplicates and unknown records, end of data with same/new "
         "session id, serial notify, cache reset, error report), connection loss and route injection, in three "
-        "groups (twin: both caches serve the same <=2 records of one bucket, re-announce and withdraw them in "
-        "full and incremental responses with serial/session resets in between; clean; free), executed "
+        "groups (creset: a Serial Query is answered with Cache Reset at any point of a serial-notify history "
+        "over three records, the reload keeps or changes the session id, increments go on after it; twin: both "
+        "caches serve the same <=2 records of one bucket, re-announce and withdraw them in full and "
+        "incremental responses with serial/session resets in between; clean; free), executed "
         "on a real BgpServer; ListRpkiTable/ListPath/policy marks judged by RpkiTrace.tla; non-trivial = "
         "distinct exact table states that are not empty, distinct (route, covering set) verdicts, distinct "
         "policy marks other than not-found")
